@@ -571,6 +571,11 @@ func (w *wbuild) Drive(s *simrt.Sched, out *RunResult) {
 			if w.g.Features["nocache-build"] && chance(c, 1, 6, "disable-cache") {
 				opts.EnableCache = false
 			}
+			if w.g.Features["platforms"] && w.mode != "twin" && chance(c, 1, 4, "other-platform") {
+				// the same checkout and cache used from another host platform: results are keyed
+				// by platform unless the target is tagged multiplatform-cache
+				opts.Platform = "darwin/arm64"
+			}
 			doBuild(genBuildReq(c, w.U, w.g), opts, "")
 		case "wsmut":
 			note := w.mutateWorkspace(m)
